@@ -47,6 +47,9 @@ pub struct Case {
     /// (column-major memory layout), 3 = nalgebra DMatrix. The clauses do not depend on how the rows are stored.
     #[serde(default)]
     pub backend: u8,
+    /// ask the standard rows a second time in reverse (1) / rotated (2) order, as a matrix of the same shape
+    #[serde(default)]
+    pub requery: u8,
 }
 
 pub struct C12;
@@ -553,6 +556,17 @@ impl C12 {
                                 judge("standard call", rep, &lab, &ident);
                             }
                         }
+                        if case.requery > 0 && rep.violation.is_none() {
+                            let m = q.len();
+                            let src: Vec<usize> = if case.requery == 1 { (0..m).rev().collect() } else { (0..m).map(|j| (j + 1 + (case.tape.seed % m as u64) as usize) % m).collect() };
+                            let again: Vec<Vec<f64>> = src.iter().map(|s| q[*s].clone()).collect();
+                            rep.count("fault.same-rows-asked-again-in-another-order", 1);
+                            match guarded(|| T::kmeans_predict(&model, &again, case.backend, false)) {
+                                Err(msg) => rep.fail("panic", "predict", format!("{}: second query panicked: {}", ctx, msg)),
+                                Ok(Err(e)) => rep.fail("predict-error", "predict", format!("{}: second query failed: {}", ctx, e)),
+                                Ok(Ok(lab)) => judge("the same rows in another order", rep, &lab, &src),
+                            }
+                        }
                         if case.many > 0 && rep.violation.is_none() {
                             let m = q.len();
                             let stride = 1 + (case.tape.seed % 7) as usize;
@@ -899,6 +913,7 @@ fn gen_case(batch: &str, _index: u64, seed: u64) -> Case {
             many: 0,
             roundtrip: 0,
             backend: 0,
+            requery: 0,
         };
     }
     let mut r = Xo::fork(seed, "workload");
@@ -930,7 +945,7 @@ fn gen_case(batch: &str, _index: u64, seed: u64) -> Case {
         let mut k = pr.usize_in(2, 4);
         ensure_distinct(&mut data, &mut k, false);
         let max_iter = *pr.pick(&[1usize, 2, 3, 10]);
-        return Case { mode: "fit".into(), data, k, max_iter, f32m: false, centroids: vec![], queries: vec![], tape: TapeSpec::prng(tape_seed), kind: "deep-nest/prng".into(), ctor: pr.below(6) as u8, many: 0, roundtrip: 0, backend: 0 };
+        return Case { mode: "fit".into(), data, k, max_iter, f32m: false, centroids: vec![], queries: vec![], tape: TapeSpec::prng(tape_seed), kind: "deep-nest/prng".into(), ctor: pr.below(6) as u8, many: 0, roundtrip: 0, backend: 0, requery: 0 };
     }
     if batch == "fit-tie-lattice" {
         // one or two coordinates on a zero-centred lattice with a step that is not a dyadic rational (0.1, 1/3, 0.7,
@@ -944,7 +959,7 @@ fn gen_case(batch: &str, _index: u64, seed: u64) -> Case {
         let mut data = data;
         let mut k = pr.usize_in(2, 3).min(n);
         ensure_distinct(&mut data, &mut k, false);
-        return Case { mode: "fit".into(), data, k, max_iter: 100, f32m: false, centroids: vec![], queries: vec![], tape: TapeSpec::prng(tape_seed), kind: "tie-lattice/prng".into(), ctor: pr.below(6) as u8, many: 0, roundtrip: 0, backend: 0 };
+        return Case { mode: "fit".into(), data, k, max_iter: 100, f32m: false, centroids: vec![], queries: vec![], tape: TapeSpec::prng(tape_seed), kind: "tie-lattice/prng".into(), ctor: pr.below(6) as u8, many: 0, roundtrip: 0, backend: 0, requery: 0 };
     }
     let n = if crowded { pr.usize_in(4, 12) } else if pr.chance(0.5) { pr.usize_in(2, 40) } else { pr.usize_in(2, 300) };
     let p = if crowded { pr.usize_in(1, 2) } else { pr.usize_in(1, 6) };
@@ -1045,7 +1060,7 @@ fn gen_case(batch: &str, _index: u64, seed: u64) -> Case {
                 }
             }
         }
-        return Case { mode: "direct".into(), data, k, max_iter: 1, f32m, centroids: cents, queries: vec![], tape: TapeSpec::prng(tape_seed), kind: format!("{}/{}", dname, cname), ctor: 0, many: 0, roundtrip: 0, backend: 0 };
+        return Case { mode: "direct".into(), data, k, max_iter: 1, f32m, centroids: cents, queries: vec![], tape: TapeSpec::prng(tape_seed), kind: format!("{}/{}", dname, cname), ctor: 0, many: 0, roundtrip: 0, backend: 0, requery: 0 };
     }
     ensure_distinct(&mut data, &mut k, f32m);
     let max_iter = if pr.chance(0.6) { *pr.pick(&[1usize, 1, 2, 2, 3, 5, 10, 30, 100, 100]) } else { pr.usize_in(1, 100) };
@@ -1080,7 +1095,7 @@ fn gen_case(batch: &str, _index: u64, seed: u64) -> Case {
         _ => panic!("unknown batch {}", batch),
     }
     let ctor = pr.below(6) as u8;
-    Case { mode: "fit".into(), data, k, max_iter, f32m, centroids: vec![], queries, tape, kind, ctor, many: 0, roundtrip: 0, backend: 0 }
+    Case { mode: "fit".into(), data, k, max_iter, f32m, centroids: vec![], queries, tape, kind, ctor, many: 0, roundtrip: 0, backend: 0, requery: 0 }
 }
 
 impl Property for C12 {
@@ -1099,11 +1114,18 @@ impl Property for C12 {
             Batch { name: "fit-extreme", count: if q { 40_000 } else { 2_000_000 }, simulated: true, exhaustive: false, note: "extreme words (cut-off 0.0, 1-2^-53, first/last row) injected at random draw sites" },
             Batch { name: "fit-forced-first", count: if q { 12_000 } else { 500_000 }, simulated: true, exhaustive: false, note: "first centroid forced onto a chosen (often duplicated / last) row" },
             Batch { name: "fit-f32", count: if q { 12_000 } else { 500_000 }, simulated: true, exhaustive: false, note: "same as fit-prng in single precision (tolerances scaled)" },
+            Batch { name: "many-rows-huge", count: if q { 3 } else { 12 }, simulated: true, exhaustive: false, note: "one predict call with 3e5..1.1e6 rows (thorough: up to 4.2e6): block sizes of 2^18..2^22 elements; a cap beyond the largest call made here stays invisible" },
             Batch { name: "direct", count: if q { 40_000 } else { 1_000_000 }, simulated: false, exhaustive: false, note: "schedule-free: the assignment step called directly (hook) with coincident / far-outside / mid-point / k=1 centroid sets" },
             Batch { name: "direct-f32", count: if q { 8_000 } else { 200_000 }, simulated: false, exhaustive: false, note: "schedule-free direct calls in single precision" },
         ]
     }
     fn gen(&self, batch: &str, index: u64, seed: u64) -> Case {
+        if batch == "many-rows-huge" {
+            let mut c = self.gen(if index % 2 == 1 { "fit-f32" } else { "fit-prng" }, index, seed);
+            c.many = [300_000usize, 600_000, 1_100_000, 4_200_000][(index % 4) as usize];
+            c.kind = format!("{}+many-rows-huge", c.kind);
+            return c;
+        }
         let mut c = gen_case(batch, index, seed);
         if c.mode == "fit" {
             let mut r = Xo::fork(seed, "post");
@@ -1111,6 +1133,7 @@ impl Property for C12 {
             c.many = if r.chance(0.004) { *r.pick(&[1030usize, 1030, 2060, 4100, 4100, 8200, 16_400, 65_600]) } else { 0 };
             c.roundtrip = if r.chance(0.2) { 1 + r.below(2) as u8 } else { 0 };
             c.backend = if r.chance(0.25) { 1 + r.below(3) as u8 } else { 0 };
+            c.requery = if r.chance(0.15) { 1 + r.below(2) as u8 } else { 0 };
         }
         c
     }
